@@ -239,6 +239,48 @@ func checkC03(p *Prog, r *Result, tier string) {
 			continue
 		}
 		inits := fn.calls(isHeapFn("Init"))
+		// a constructor of the package that hands back an initialised heap (heap.Init dominates each of its returns and no
+		// direct Push/Pop follows it there) initialises as well
+		for _, c := range fn.calls(func(f *types.Func) bool { return f.Pkg() == fn.Pkg.Types }) {
+			H := p.ByObj[fn.Callee(c)]
+			if H == nil || H.Body == nil || H == fn || H.Lit != nil {
+				continue
+			}
+			hin := H.calls(isHeapFn("Init"))
+			if len(hin) == 0 {
+				continue
+			}
+			good := true
+			inspectNoLit(H.Body, func(n ast.Node) bool {
+				switch y := n.(type) {
+				case *ast.ReturnStmt:
+					dom := false
+					for _, ic := range hin {
+						if H.dominates(H.find(ic), H.find(y)) {
+							dom = true
+						}
+					}
+					if !dom {
+						good = false
+					}
+				case *ast.CallExpr:
+					if sel, ok := unparen(y.Fun).(*ast.SelectorExpr); ok && (sel.Sel.Name == "Push" || sel.Sel.Name == "Pop") {
+						if f := H.Callee(y); f != nil && f.Pkg() != nil && relPath(f.Pkg().Path()) == "strategy" {
+							cr := H.find(y)
+							for _, ic := range hin {
+								if _, ok := H.reach(H.find(ic), true, func(x nodeRef) bool { return x == cr }, nil, false); ok {
+									good = false
+								}
+							}
+						}
+					}
+				}
+				return true
+			})
+			if good {
+				inits = append(inits, c)
+			}
+		}
 		why := ""
 		for _, pc := range pops {
 			dom := false
